@@ -12,11 +12,11 @@ CHECKS = {
    technique="deterministic simulation: nested-transaction reference model for sequential histories, seeded thread schedules with resize pressure for isolation/atomicity, crash-point enumeration around commit",
    note="Trusted base: hooks H1/H2 and the crash points (MANIFEST.hooks); batches prepared concurrently stay below the 10% headroom of the enlarged map (the envelope of the allocation policy); process death, not power loss."),
  "C17": dict(engine="schedsim", cat="exploration", ref="5/C17",
-   text="Seeded schedule exploration: a fixed multiset of operations (peers submitting bodies of competing forks, a headers thread delivering the fork branch header-first while bodies already arrive, readers incl. validate_tx of an always-valid and a never-valid transaction, template builder, segment server, compactor - every fourth case on an 87-92 block chain where compaction really acts) runs on 4-8 real OS threads against one real Chain; a baton scheduler hooked into grin_util's lock types, the LMDB writer token, the labelled durable steps and sleeps lets exactly one thread run and picks the next one from a seeded PRNG at every such point; in half of the runs one to three threads are additionally stalled for hundreds of scheduling points at random places, and a third of the plans are leapfrog plans in which two peers alternate along a branch (parent being accepted while the child is classified as an orphan). Checked: no deadlock, no panic, every observed head names a stored block of matching height/difficulty, head difficulty never decreases per reader, reads never fail; at join the head is the unique most-work block, validate(false) passes and the unspent view equals the replayed ledger. Every run is in a forked child; a recorded choice list replays to the identical trace.",
+   text="Seeded schedule exploration: a fixed multiset of operations (peers submitting bodies of competing forks, a headers thread delivering the fork branch header-first while bodies already arrive, readers incl. validate_tx of an always-valid and a never-valid transaction, template builder, segment server, compactor - every fourth case on a 90-93 block chain where compaction really acts and the head crosses into the next archive period while two segment-serving threads run) runs on 4-8 real OS threads against one real Chain; a baton scheduler hooked into grin_util's lock types, the LMDB writer token, the labelled durable steps and sleeps lets exactly one thread run and picks the next one from a seeded PRNG at every such point; in half of the runs one to three threads are additionally stalled for hundreds of scheduling points at random places, and a third of the plans are leapfrog plans in which two peers alternate along a branch (parent being accepted while the child is classified as an orphan). Checked: no deadlock, no panic, every observed head names a stored block of matching height/difficulty, head difficulty never decreases per reader, reads never fail; at join the head is the unique most-work block, validate(false) passes and the unspent view equals the replayed ledger. Every run is in a forked child; a recorded choice list replays to the identical trace.",
    technique="deterministic simulation: seeded scheduler controlling real threads at lock/commit points with deadlock detection and sequential-outcome oracle",
    note="Trusted base: hooks H1/H2 (lock wrappers model parking_lot's writer preference; LMDB writer mutex shadowed by a token); scheduling granularity is lock operations, durable steps and sleeps."),
  "C16": dict(engine="pibdsim", cat="exploration", ref="5/C16",
-   text="State sync between a real serving node (Segmenter; optionally compacted) and a real headers-only receiver (Desegmenter) through a harness loop mirroring StateSync::continue_pibd, over a simulated network that reorders, duplicates, drops and corrupts serialized segment responses (one root-bound element per corruption), with segment heights 0-4 via the cfg(grin_verif) override; plus the zip path. Honest segments must validate, corrupted ones be refused, assembly must finish within a bounded number of fault-free rounds and the finalized state must equal that of a node that processed every block to the archive header (roots, sizes, unspent set, validate(false)); the rest of the chain is then accepted and a restart succeeds. Per small world two more syncs run between two real nodes with their complete p2p stacks (E11 netsim): headers as Headers messages, segment requests through the receiver's real Peer object and outbound connection, answers from the serving node's real Protocol / NetToChainAdapter / Segmenter relayed by the simulator (fault free; and with a wire that loses, duplicates, delays and flips bytes), finishing in the same reference state. Per small or compacted world one or two further syncs are driven by the receiving node's own sync loop (E12 syncsim): the real servers run_sync thread (SyncRunner, HeaderSync, StateSync with its PIBD request tracking, 20 s segment timeouts, peer exclusion and 660 s fall-back to the state archive, BodySync) stepped by a sleep gate under a simulated wall clock against a serving real node, with loss, delay, duplication, corruption, stalling and returning peers, clock jumps past every deadline and clean restarts of the receiver mid-sync; whenever the head moves the state must be the reference state of that height, and after the faults the loop must end in NoSync on the serving node's head with identical roots and unspent set.",
+   text="State sync between a real serving node (Segmenter; optionally compacted) and a real headers-only receiver (Desegmenter) through a harness loop mirroring StateSync::continue_pibd, over a simulated network that reorders, duplicates, drops and corrupts serialized segment responses (one root-bound element per corruption), with segment heights 0-4 via the cfg(grin_verif) override; plus the zip path. Honest segments must validate, corrupted ones be refused, assembly must finish within a bounded number of fault-free rounds and the finalized state must equal that of a node that processed every block to the archive header (roots, sizes, unspent set, validate(false)); the rest of the chain is then accepted and a restart succeeds. Per small world two more syncs run between two real nodes with their complete p2p stacks (E11 netsim): headers as Headers messages, segment requests through the receiver's real Peer object and outbound connection, answers from the serving node's real Protocol / NetToChainAdapter / Segmenter relayed by the simulator (fault free; and with a wire that loses, duplicates, delays and flips bytes), finishing in the same reference state. Per small or compacted world one or two further syncs are driven by the receiving node's own sync loop (E12 syncsim): the real servers run_sync thread (SyncRunner, HeaderSync, StateSync with its PIBD request tracking, 20 s segment timeouts, peer exclusion and 660 s fall-back to the state archive, BodySync) stepped by a sleep gate under a simulated wall clock against a serving real node, with loss, delay, duplication, corruption, stalling and returning peers, clock jumps past every deadline and clean restarts of the receiver mid-sync; whenever the head moves the state must be the reference state of that height, and after the faults the loop must end in NoSync on the serving node's head with identical roots and unspent set. The last sync-loop run of every small world moves the archive header under a half assembled state (the serving node reorganises onto a heavier branch below the archive header, or its chain grows past the next archive interval; the receiver is restarted or follows header announcements): nothing but a reference state may ever be finalised, and completion with the full final-state comparison is demanded where the unchanged loop completes. The final-state comparison includes every kernel of every block up to the archive header as stored by the receiver.",
    technique="deterministic simulation: seeded segment delivery schedules with loss/duplication/reordering/corruption between real Segmenter and Desegmenter, directly, over the two nodes' real p2p stacks, and driven by the node's own sync loop stepped under a simulated clock",
    note="Trusted base: harness mirror of the sync loop and of receive_*_segment (typed and wire runs; the syncsim runs use the real loop, with the bitmap segment of a single-leaf bitmap MMR volunteered by the serving side); the serving chain keeps its archive header at or above its compaction horizon (always true with mainnet parameters); one case in eight has a multi-chunk bitmap (1081+ real outputs)."),
  "C14": dict(engine="poolsim", cat="exploration", ref="5/C14",
